@@ -795,6 +795,10 @@ func c04ConsoleNamespace(c *Ctx) {
 // c04ObserverDrain: an observer core is a sink too (a tee branch in tests): producers log while a consumer drains it
 // with TakeAll. Every entry is handed out exactly once, in each producer's order.
 func c04ObserverDrain(c *Ctx) {
+	c.MustTLC(TLCOpts{Module: "Observer", Cfg: "Observer.check"})
+	c.MustTLC(TLCOpts{Module: "Observer", Cfg: "Observer.check", Consts: map[string]string{"PerProducer": "3", "MaxTakes": "3"}})
+	c.MustTLC(TLCOpts{Module: "Observer", Cfg: "Observer.check", Consts: map[string]string{"Take": `"two-step"`}, ExpectViolation: true})
+	c.MustTLC(TLCOpts{Module: "Observer", Cfg: "Observer.check", Consts: map[string]string{"Take": `"alias"`}, ExpectViolation: true})
 	for round := 0; round < c.Pick(6, 60); round++ {
 		ocore, logs := observer.New(zapcore.DebugLevel)
 		ocore2, logs2 := observer.New(zapcore.InfoLevel)
@@ -815,8 +819,18 @@ func c04ObserverDrain(c *Ctx) {
 		go func() { wg.Wait(); close(done) }()
 		next := [2][P]int{}
 		bad := ""
+		type held struct {
+			batch []observer.LoggedEntry
+			first string
+		}
+		var kept []held
+		sig := func(e observer.LoggedEntry) string { m := e.ContextMap(); return fmt.Sprint(m["p"], "/", m["i"]) }
 		drain := func(k int, l *observer.ObservedLogs) {
-			for _, e := range l.TakeAll() {
+			b := l.TakeAll()
+			if len(b) > 0 && len(kept) < 64 {
+				kept = append(kept, held{b, sig(b[0])}) // the batch is the consumer's: it is looked at again at the end
+			}
+			for _, e := range b {
 				m := e.ContextMap()
 				p, i := int(m["p"].(int64)), int(m["i"].(int64))
 				if i != next[k][p] && bad == "" {
@@ -836,6 +850,11 @@ func c04ObserverDrain(c *Ctx) {
 		}
 		drain(0, logs)
 		drain(1, logs2)
+		for _, h := range kept {
+			if bad == "" && sig(h.batch[0]) != h.first {
+				bad = fmt.Sprintf("a batch returned by TakeAll began with entry %s when it was handed out and begins with %s now: entries logged later overwrote it", h.first, sig(h.batch[0]))
+			}
+		}
 		for k := 0; k < 2 && bad == ""; k++ {
 			for p := 0; p < P; p++ {
 				if next[k][p] != N {
